@@ -70,11 +70,14 @@ pub struct Cap<'c, 'g> {
 	pub path: Vec<usize>,
 	/// the part of the expected value that corresponds to this node, if known
 	pub shape: Option<&'c J>,
+	/// directly inside `Option<_>` over a union of several branches: there an enum hint means "the union as an enum" (the variant
+	/// identifier is the branch's type name), so an Avro enum branch is read by its symbol, not through a Rust enum
+	pub no_enum_hint: bool,
 }
 
 impl<'c, 'g> Cap<'c, 'g> {
 	pub fn root(ctx: &'c Ctx<'g>) -> Self {
-		Cap { ctx, key: 0, path: vec![], shape: ctx.shape.as_ref() }
+		Cap { ctx, key: 0, path: vec![], shape: ctx.shape.as_ref(), no_enum_hint: false }
 	}
 	fn child(&self, key: SchemaKey, step: usize) -> Cap<'c, 'g> {
 		self.child_shaped(key, step, None)
@@ -82,7 +85,7 @@ impl<'c, 'g> Cap<'c, 'g> {
 	fn child_shaped(&self, key: SchemaKey, step: usize, shape: Option<&'c J>) -> Cap<'c, 'g> {
 		let mut path = self.path.clone();
 		path.push(step);
-		Cap { ctx: self.ctx, key: key.idx(), path, shape }
+		Cap { ctx: self.ctx, key: key.idx(), path, shape, no_enum_hint: false }
 	}
 	fn shape_elems(&self) -> Option<&'c Vec<J>> {
 		self.shape.and_then(|s| s.get("es")).and_then(|e| e.as_array())
@@ -129,7 +132,7 @@ impl<'de, 'c, 'g> DeserializeSeed<'de> for Cap<'c, 'g> {
 				"seq" => d.deserialize_tuple(3, DurationV { cap: &self }),
 				_ => d.deserialize_bytes(ScalarV { want: "dur", cap: &self }),
 			},
-			Eff::Enum if alt => d.deserialize_enum("E", &[], RustEnumV { cap: &self }),
+			Eff::Enum if alt && !self.no_enum_hint => d.deserialize_enum("E", &[], RustEnumV { cap: &self }),
 			Eff::Enum => match self.ctx.enum_mode {
 				"u64" => d.deserialize_u64(ScalarV { want: "enum_u64", cap: &self }),
 				_ => d.deserialize_any(ScalarV { want: "enum", cap: &self }),
@@ -150,6 +153,9 @@ impl<'de, 'c, 'g> DeserializeSeed<'de> for Cap<'c, 'g> {
 			Eff::Record if alt => d.deserialize_map(RecordV { cap: &self }),
 			Eff::Record => d.deserialize_struct("", &[], RecordV { cap: &self }),
 			Eff::Union if alt && self.is_option_union() => d.deserialize_option(OptionV { cap: &self }),
+			// `Option<T>` over a union of null and SEVERAL other branches, T being the type that fits the branch the value is
+			// expected in (known from the expected value)
+			Eff::Union if alt && self.multi_option_branch().is_some() => d.deserialize_option(OptionMultiV { cap: &self }),
 			Eff::Union => d.deserialize_enum("", &[], UnionV { cap: &self }),
 		}
 	}
@@ -166,6 +172,57 @@ impl<'c, 'g> Cap<'c, 'g> {
 				.count() == 1,
 			_ => false,
 		}
+	}
+}
+
+impl<'c, 'g> Cap<'c, 'g> {
+	/// a union of null and at least two other branches, and the expected value says which branch it is in
+	fn multi_option_branch(&self) -> Option<(usize, usize)> {
+		let variants = match self.node().map(|n| &n.type_) {
+			Ok(RegularType::Union(u)) if u.variants.len() >= 3 => &u.variants,
+			_ => return None,
+		};
+		let is_null = |k: &SchemaKey| self.ctx.g.nodes().get(k.idx()).map_or(false, |n| eff(n) == Eff::Null);
+		let null_idx = variants.iter().position(is_null)?;
+		let b = self.shape.and_then(|s| s.get("b")).and_then(|b| b.as_u64())? as usize;
+		if b < variants.len() {
+			Some((null_idx, b))
+		} else {
+			None
+		}
+	}
+}
+
+/// `Option<T>` over [null, A, B, ...]: T is the target for the expected branch
+struct OptionMultiV<'a, 'c, 'g> {
+	cap: &'a Cap<'c, 'g>,
+}
+impl<'de, 'a, 'c, 'g> Visitor<'de> for OptionMultiV<'a, 'c, 'g> {
+	type Value = J;
+	fn expecting(&self, f: &mut fmt::Formatter) -> fmt::Result {
+		write!(f, "CAPTURE-MISMATCH: an option over a union of several branches")
+	}
+	fn visit_none<E: de::Error>(self) -> Result<J, E> {
+		let (null_idx, _) = self.cap.multi_option_branch().ok_or_else(|| de_err("no expected branch"))?;
+		Ok(json!({"t": "un", "b": null_idx, "x": {"t": "null"}}))
+	}
+	fn visit_unit<E: de::Error>(self) -> Result<J, E> {
+		self.visit_none()
+	}
+	fn visit_some<D: Deserializer<'de>>(self, d: D) -> Result<J, D::Error> {
+		let (null_idx, b) = self.cap.multi_option_branch().ok_or_else(|| de_err("no expected branch"))?;
+		if b == null_idx {
+			return Err(de_err("CAPTURE-MISMATCH: Some(..) where the expected value is in the null branch"));
+		}
+		let key = match &self.cap.node().map_err(de_err)?.type_ {
+			RegularType::Union(u) => u.variants[b],
+			_ => return Err(de_err("option capture on non-union")),
+		};
+		let shape = self.cap.shape.and_then(|s| s.get("x"));
+		let mut child = self.cap.child_shaped(key, b, shape);
+		child.no_enum_hint = true;
+		let v = child.deserialize(d)?;
+		Ok(json!({"t": "un", "b": b, "x": v}))
 	}
 }
 
